@@ -152,7 +152,8 @@ class Inliner(object):
             holders = set()
             for b in F['blocks']:
                 for e in b['ev']:
-                    if e.get('k') == 'decl' and any((x.get('fn') or x.get('id') or x.get('n')) in (fid, d.get('name')) for x in _walk(e.get('init'))):
+                    if e.get('k') == 'decl' and any(x.get('k') != 'call' and (x.get('fn') or x.get('id') or x.get('n')) in (fid, d.get('name'))
+                                                    for x in _walk(e.get('init'))):
                         holders.add(e['n'])
             if not holders:
                 return False
@@ -259,6 +260,28 @@ class Inliner(object):
                 break
             if any(y.get('k') == 'call' and y.get('fn') == E.get('fn') for y in _walk(x)):
                 break
+        # `v = Helper(..);` with a plain local v the helper does not mention: likewise
+        unify_asg = None
+        if unify is None and not void:
+            for j in range(ei + 1, len(B['ev'])):
+                x = B['ev'][j]
+                r_ = x.get('r')
+                while isinstance(r_, dict) and r_.get('k') == 'cast':
+                    r_ = r_.get('e')
+                if x.get('k') == 'asg' and x.get('op') == '=' and isinstance(x.get('l'), dict) and x['l'].get('k') == 'var' and x['l'].get('vk') == 'local' and \
+                        isinstance(r_, dict) and r_.get('k') == 'call' and r_.get('fn') == E.get('fn') and _call_key(r_) == ekey:
+                    vn = x['l']['n']
+                    mentioned = any(y.get('k') == 'var' and y.get('n') == vn for b in G['blocks'] for e2 in b['ev'] for y in _walk(e2)) or \
+                        any(y.get('k') == 'var' and y.get('n') == vn for a_ in args for y in _walk(a_))
+                    if not mentioned:
+                        unify_asg = j
+                    break
+                if any(y.get('k') == 'call' and y.get('fn') == E.get('fn') for y in _walk(x)):
+                    break
+        if unify_asg is not None:
+            av = B['ev'][unify_asg]
+            ret_var = {'k': 'var', 'n': av['l']['n'], 'vk': 'local', 'tk': av['l'].get('tk'), 'ty': av['l'].get('ty')}
+            del B['ev'][unify_asg]
         if unify is not None and not void:
             dv = B['ev'][unify]
             ret_var = {'k': 'var', 'n': dv['n'], 'vk': 'local', 'tk': dv.get('tk'), 'ty': dv.get('ty')}
@@ -368,7 +391,8 @@ class Inliner(object):
         # return threading: when the continuation does nothing but branch on the result, every return
         # site branches itself on the value it returns (`if (!Helper())` becomes `if (!<returned expr>)`
         # at each return, constant returns fold into plain jumps)
-        if not void and not cont['ev'] and 'term' in cont and len(cont.get('succ', [])) == 2 and \
+        # (not when the result lives in a variable of the caller's own - `v = Helper(); if (!v)` tests v, and goes on using it)
+        if not void and not cont['ev'] and 'term' in cont and len(cont.get('succ', [])) == 2 and unify is None and unify_asg is None and \
                 any(x.get('k') == 'var' and x.get('n') == ret_var['n'] for x in _walk(cont['term'].get('cond'))):
             for nb in newblocks:
                 if nb['succ'] == [cont_id] and nb['ev'] and nb['ev'][-1].get('inl_ret') and 'term' not in nb:
